@@ -248,6 +248,7 @@ def loop_detect_in_statements(statements: List[Statement]):
                 p_st: Statement = cast(Statement, previous_st)    
                 p_op: BinaryOperation = cast(BinaryOperation, p_st.code)
                 ro.varname = cast(Node, p_op.left).name
+                ro.variable = cast(Node, p_op.left)
                 ro.start = cast(Node, p_op.right)
                 
                 cond: BinaryOperation = cast(BinaryOperation, ro.condition)
@@ -274,6 +275,7 @@ def loop_detect_in_statements(statements: List[Statement]):
                 first_st: Statement = ro.statements_list[0]
                 first_op: BinaryOperation = cast(BinaryOperation, first_st.code)
                 ro.varname = cast(Node, first_op.left).name
+                ro.variable = cast(Node, first_op.left)
                 
                 assign_fn: CallFunction = cast(CallFunction, first_op.right)
                 assign_fn_par:LoadListOperation = \
